@@ -547,60 +547,41 @@ func stableKey(t types.Type) bool {
 //
 //	{ verifmN := M; L: for _, k := range rt.Keys(verifmN, site) { v, verifokN := verifmN[k]; if !verifokN { continue }; body } }
 func rewriteMapRange(fe *fileEdits, x *ast.RangeStmt, lab *ast.LabeledStmt, off func(token.Pos) int, src []byte, site string, n int) {
-	m := "verifm" + strconv.Itoa(n)
-	okv := "verifok" + strconv.Itoa(n)
-	kv := "verifk" + strconv.Itoa(n)
-	vv := "verifv" + strconv.Itoa(n)
-	start := x.Pos()
-	if lab != nil {
-		start = lab.Pos()
-	}
+	it := "verifit" + strconv.Itoa(n)
 	mexpr := string(src[off(x.X.Pos()):off(x.X.End())])
-	fe.ins(off(start), "{ "+m+" := "+mexpr+"; ")
+	text := func(e ast.Expr) string { return string(src[off(e.Pos()):off(e.End())]) }
 	keyName, valName := "", ""
-	if id, ok := x.Key.(*ast.Ident); ok && id.Name != "_" {
-		keyName = id.Name
-	} else if x.Key != nil {
-		if _, isIdent := x.Key.(*ast.Ident); !isIdent {
-			keyName = string(src[off(x.Key.Pos()):off(x.Key.End())])
+	if x.Key != nil {
+		if id, ok := x.Key.(*ast.Ident); !ok || id.Name != "_" {
+			keyName = text(x.Key)
 		}
 	}
 	if x.Value != nil {
-		if id, ok := x.Value.(*ast.Ident); ok {
-			if id.Name != "_" {
-				valName = id.Name
-			}
-		} else {
-			valName = string(src[off(x.Value.Pos()):off(x.Value.End())])
+		if id, ok := x.Value.(*ast.Ident); !ok || id.Name != "_" {
+			valName = text(x.Value)
 		}
 	}
-	var head, pre string
-	keysCall := rtAlias + ".Keys(" + m + ", " + strconv.Quote(site) + ")"
-	if x.Tok == token.DEFINE {
-		k := keyName
-		if k == "" {
-			k = kv
-		}
-		head = "for _, " + k + " := range " + keysCall
-		if valName != "" {
-			pre = valName + ", " + okv + " := " + m + "[" + k + "]; if !" + okv + " { continue }; "
-		} else {
-			pre = "if _, " + okv + " := " + m + "[" + k + "]; !" + okv + " { continue }; "
-		}
-	} else { // ASSIGN or no variables
-		head = "for _, " + kv + " := range " + keysCall
-		pre = vv + ", " + okv + " := " + m + "[" + kv + "]; if !" + okv + " { continue }; _ = " + vv + "; "
-		if keyName != "" {
-			pre += keyName + " = " + kv + "; "
-		}
-		if valName != "" {
-			pre += valName + " = " + vv + "; "
-		}
+	// L: for k, v := range M { body }
+	//   ->
+	// L: for verifitN := rt.NewIter(M, site); verifitN.Next(); { k, v := verifitN.Key(), verifitN.Val(); body }
+	// (M is evaluated once, as in the original; the label stays on the for statement)
+	head := "for " + it + " := " + rtAlias + ".NewIter(" + mexpr + ", " + strconv.Quote(site) + "); " + it + ".Next(); "
+	op := " := "
+	if x.Tok != token.DEFINE {
+		op = " = "
 	}
-	// replace header text from `for` up to (not including) the body's `{`
-	fe.repl(off(x.For), off(x.Body.Lbrace)-off(x.For), head+" ")
+	pre := ""
+	switch {
+	case keyName != "" && valName != "":
+		pre = keyName + ", " + valName + op + it + ".Key(), " + it + ".Val(); "
+	case keyName != "":
+		pre = keyName + op + it + ".Key(); "
+	case valName != "":
+		pre = valName + op + it + ".Val(); "
+	}
+	fe.repl(off(x.For), off(x.Body.Lbrace)-off(x.For), head)
 	fe.ins(off(x.Body.Lbrace)+1, " "+pre)
-	fe.ins(off(x.Body.Rbrace)+1, " }")
+	_ = lab
 }
 
 func applyEdits(src []byte, edits []edit) []byte {
